@@ -9,6 +9,7 @@ mod c09;
 mod c10;
 mod c11;
 mod c12;
+mod c13r;
 mod c14;
 mod c16;
 mod c17;
@@ -39,6 +40,7 @@ fn prop_by_id(id: &str) -> Option<Box<dyn Prop>> {
         "C10" => Box::new(c10::C10),
         "C11" => Box::new(c11::C11),
         "C12" => Box::new(c12::C12),
+        "C13" => Box::new(c13r::C13r),
         "C16" => Box::new(c16::C16),
         "C17" => Box::new(c17::C17Prop),
         "C18" => Box::new(c18::C18),
